@@ -40,6 +40,12 @@ func init() {
 		c01FlushOrder(fs, wr)
 		// ---- LoadIndex cases
 		c01LoadIndex(fs, rd)
+		// ---- the chronicler's choice of operation and its handling of a refused entry
+		c01Chronicler(fs)
+		c01ApiValidation(fs)
+		c01OpenExisting(fs, wr)
+		// ---- every path that buffers entries obeys the per-entry flush rule
+		c01BatchPaths(fs, wr, rd)
 	}})
 }
 
@@ -323,38 +329,8 @@ func c01ConstIs(f *File, name string, vals ...string) bool {
 }
 
 func c01FlushOrder(fs *Facts, f *File) {
-	if f == nil {
-		fs.Enum("flushOrder", "unknown", c01Writer)
-		return
-	}
-	fd := f.Func("FileWriter", "flushLocked")
-	if fd == nil {
-		fs.Enum("flushOrder", "unknown", c01Writer)
-		return
-	}
-	var args []string
-	for _, c := range f.Calls(fd.Body, "fw.file.Write") {
-		if len(c.Args) == 1 {
-			args = append(args, strings.ReplaceAll(f.Str(c.Args[0]), " ", ""))
-		}
-	}
-	where := c01Writer + ":" + itoa(f.Line(fd))
-	// the block header must come from fw.buffer.Flush()
-	hdrFromFlush := false
-	for _, st := range f.Stmts(fd.Body) {
-		if as, ok := st.(*ast.AssignStmt); ok && len(as.Lhs) == 3 && len(as.Rhs) == 1 &&
-			f.Str(as.Rhs[0]) == "fw.buffer.Flush()" && f.Str(as.Lhs[0]) == "header" && f.Str(as.Lhs[1]) == "compressed" {
-			hdrFromFlush = true
-		}
-	}
-	switch {
-	case !hdrFromFlush:
-		fs.Enum("flushOrder", "unknown", where)
-	case len(args) == 3 && args[0] == "header.Serialize()" && args[1] == "compressed" && args[2] == "fw.header.Serialize()":
-		fs.Enum("flushOrder", "blockHeaderDataFileHeader", where)
-	default:
-		fs.Enum("flushOrder", "other", where)
-	}
+	order, line := StorFlushOrder(f)
+	fs.Enum("flushOrder", order, c01Writer+":"+itoa(line))
 }
 
 func c01LoadIndex(fs *Facts, f *File) {
@@ -420,4 +396,195 @@ func c01LoadIndex(fs *Facts, f *File) {
 	}
 	fs.Tri("deleteRemoves", TriOf(del), where)
 	fs.Tri("metadataIgnored", TriOf(metaClean), where)
+}
+
+// c01BatchPaths: WriteEntries must ask for a flush after every Add (flushLocked inside the range
+// loop), the compaction paths must write entry by entry through WriteEntry, and ReadAllEntries /
+// ReadAllBlocks must scan until EOF (an unconditional `for {` around readNextBlock), not up to a
+// header counter.
+func c01BatchPaths(fs *Facts, wr *File, rd *File) {
+	const comp = "app/core/hydra/swamp/chronicler/v2/compactor.go"
+	per := Unknown
+	if wr != nil {
+		if fd := wr.Func("FileWriter", "WriteEntries"); fd != nil {
+			per = No
+			ast.Inspect(fd.Body, func(x ast.Node) bool {
+				if r, ok := x.(*ast.RangeStmt); ok {
+					if len(wr.CallsSuffix(r.Body, "buffer.Add")) == 1 && len(wr.Calls(r.Body, "fw.flushLocked")) == 1 {
+						per = Yes
+					}
+				}
+				return true
+			})
+		}
+	}
+	fs.Tri("writeEntriesFlushesPerEntry", per, c01Writer)
+	cp := Unknown
+	if cf, err := Load(comp); err == nil {
+		okAll := true
+		for _, fn := range []struct{ recv, name string }{{"Compactor", "Compact"}, {"", "CompactFromIndex"}} {
+			fd := cf.Func(fn.recv, fn.name)
+			if fd == nil {
+				okAll = false
+				continue
+			}
+			found := false
+			ast.Inspect(fd.Body, func(x ast.Node) bool {
+				if r, ok := x.(*ast.RangeStmt); ok && cf.Str(r.X) == "index" && len(cf.Calls(r.Body, "writer.WriteEntry")) == 1 {
+					found = true
+				}
+				return true
+			})
+			if !found || len(cf.Calls(fd.Body, "writer.WriteEntries")) > 0 {
+				okAll = false
+			}
+		}
+		cp = TriOf(okAll)
+	} else {
+		fs.Err("%v", err)
+	}
+	fs.Tri("compactionWritesPerEntry", cp, comp)
+	scan := Unknown
+	if rd != nil {
+		okAll := true
+		for _, name := range []string{"ReadAllEntries", "ReadAllBlocks"} {
+			fd := rd.Func("FileReader", name)
+			if fd == nil {
+				okAll = false
+				continue
+			}
+			found := false
+			ast.Inspect(fd.Body, func(x ast.Node) bool {
+				if fr, ok := x.(*ast.ForStmt); ok && fr.Cond == nil && fr.Init == nil && fr.Post == nil && len(rd.Calls(fr.Body, "fr.readNextBlock")) == 1 {
+					found = true
+				}
+				return true
+			})
+			if !found {
+				okAll = false
+			}
+		}
+		scan = TriOf(okAll)
+	}
+	fs.Tri("readerScansToEOF", scan, c01Reader)
+}
+
+// c01Chronicler: chroniclerV2.Write — DELETE for GetDeletedAt() > 0, INSERT iff GetFileName() == nil else
+// UPDATE; after a failed WriteEntry the loop `continue`s; whether the caller can learn about the refusal
+// (Write has a result) or it is only logged.
+func c01Chronicler(fs *Facts) {
+	const path = "app/core/hydra/swamp/chronicler/chronicler_v2.go"
+	names := []string{"chronOpChoice", "chronContinuesAfterError", "chronSurfacesError"}
+	f, err := Load(path)
+	if err != nil {
+		fs.Err("%v", err)
+		for _, n := range names {
+			fs.Tri(n, Unknown, path)
+		}
+		return
+	}
+	fd := f.Func("chroniclerV2", "Write")
+	if fd == nil || fd.Body == nil {
+		for _, n := range names {
+			fs.Tri(n, Unknown, path)
+		}
+		return
+	}
+	where := path + ":" + itoa(f.Line(fd))
+	b := strings.ReplaceAll(f.Str(fd.Body), " ", "")
+	choice := strings.Contains(b, "isDeleted:=t.GetDeletedAt()>0") &&
+		strings.Contains(b, "ifisDeleted{") && strings.Contains(b, "Operation:v2.OpDelete,Key:key,Data:nil") &&
+		strings.Contains(b, "op:=v2.OpUpdateift.GetFileName()==nil{op=v2.OpInsert}") &&
+		strings.Contains(b, "Operation:op,Key:key,Data:data")
+	fs.Tri("chronOpChoice", TriOf(choice), where)
+	// the `if err := c.writer.WriteEntry(entry); err != nil { … }` block
+	cont, found := false, false
+	ast.Inspect(fd.Body, func(x ast.Node) bool {
+		is, ok := x.(*ast.IfStmt)
+		if !ok || is.Init == nil || !strings.Contains(f.Str(is.Init), "c.writer.WriteEntry(entry)") || len(is.Body.List) == 0 {
+			return true
+		}
+		found = true
+		if br, ok := is.Body.List[len(is.Body.List)-1].(*ast.BranchStmt); ok && br.Tok.String() == "continue" {
+			cont = true
+		}
+		return true
+	})
+	if !found {
+		fs.Tri("chronContinuesAfterError", Unknown, where)
+	} else {
+		fs.Tri("chronContinuesAfterError", TriOf(cont), where)
+	}
+	// a Write without results cannot report anything; a Write with results is not modelled yet
+	if fd.Type.Results == nil || len(fd.Type.Results.List) == 0 {
+		fs.Tri("chronSurfacesError", No, where)
+	} else {
+		fs.Tri("chronSurfacesError", Unknown, where)
+	}
+}
+
+// c01ApiValidation: the gateway refuses keys the format cannot carry before creating a treasure:
+// `func isValidKey(key string) bool { return key != "" && len(key) <= maxKeyLength }` with
+// maxKeyLength = 65535 / math.MaxUint16, used (negated, in an if that returns) by at least the twelve
+// key-creating RPCs.  No such function: `no`.  A function of another shape: `unknown`.
+func c01ApiValidation(fs *Facts) {
+	const gw = "app/server/gateway/gateway.go"
+	f, err := Load(gw)
+	if err != nil {
+		fs.Err("%v", err)
+		fs.Tri("apiValidatesKeys", Unknown, gw)
+		return
+	}
+	fd := f.Func("", "isValidKey")
+	if fd == nil {
+		fs.Tri("apiValidatesKeys", No, gw)
+		return
+	}
+	where := gw + ":" + itoa(f.Line(fd))
+	body := strings.ReplaceAll(f.Str(fd.Body), " ", "")
+	shape := body == `{returnkey!=""&&len(key)<=maxKeyLength}` && (c01ConstIs(f, "maxKeyLength", "65535", "math.MaxUint16"))
+	uses := 0
+	for _, p := range []string{gw, "app/server/gateway/gateway_patch.go"} {
+		g, err := Load(p)
+		if err != nil {
+			continue
+		}
+		ast.Inspect(g.AST, func(x ast.Node) bool {
+			if is, ok := x.(*ast.IfStmt); ok && strings.HasPrefix(strings.ReplaceAll(g.Str(is.Cond), " ", ""), "!isValidKey(") {
+				uses++
+			}
+			return true
+		})
+	}
+	switch {
+	case shape && uses >= 12:
+		fs.Tri("apiValidatesKeys", Yes, where)
+	default:
+		fs.Tri("apiValidatesKeys", Unknown, where)
+	}
+}
+
+// c01OpenExisting: does openExistingFile cut a torn tail?  yes = a `for` loop reading block headers with
+// file.ReadAt(bh, end) and advancing by BlockHeaderSize + CompressedSize, followed by
+// `if end < info.Size() { … file.Truncate(end) … }`; no = neither ReadAt nor Truncate in the function.
+func c01OpenExisting(fs *Facts, f *File) {
+	if f == nil || f.Func("FileWriter", "openExistingFile") == nil {
+		fs.Tri("openCutsTornTail", Unknown, c01Writer)
+		return
+	}
+	fd := f.Func("FileWriter", "openExistingFile")
+	where := c01Writer + ":" + itoa(f.Line(fd))
+	b := strings.ReplaceAll(f.Str(fd.Body), " ", "")
+	hasRead, hasTrunc := strings.Contains(b, "file.ReadAt("), strings.Contains(b, "file.Truncate(")
+	walk := strings.Contains(b, "file.ReadAt(bh,end)") &&
+		strings.Contains(b, "next:=end+BlockHeaderSize+int64(binary.LittleEndian.Uint32(bh[0:4]))") &&
+		strings.Contains(b, "ifnext>info.Size(){break}") && strings.Contains(b, "ifend<info.Size(){iferr:=file.Truncate(end)")
+	switch {
+	case walk:
+		fs.Tri("openCutsTornTail", Yes, where)
+	case !hasRead && !hasTrunc:
+		fs.Tri("openCutsTornTail", No, where)
+	default:
+		fs.Tri("openCutsTornTail", Unknown, where)
+	}
 }
